@@ -202,12 +202,35 @@ class FnText:
                 return
         raise Unsupported(f'{self.name}: no &self receiver for @recv mut')
 
+    def name_ret(self, name):
+        """`-> T` in the signature becomes `-> (name: T)` so that ensures clauses can mention the result"""
+        depth = 0
+        i = 0
+        while self.stok(i).start < self.body_open:
+            t = self.stok(i)
+            if t.kind == 'punct' and t.text in '([':
+                depth += 1
+            elif t.kind == 'punct' and t.text in ')]':
+                depth -= 1
+            elif t.kind == 'punct' and t.text == '->' and depth == 0:
+                j = i + 1
+                while self.stok(j).start < self.body_open and not (self.stok(j).kind == 'ident' and self.stok(j).text == 'where'):
+                    j += 1
+                a = self.stok(i + 1).start
+                b = self.stok(j - 1).end
+                self.edits.append((a, a, f'({name}: ', ('T4', 'ret')))
+                self.edits.append((b, b, ')', ('T4', 'ret')))
+                return
+            i += 1
+        raise Unsupported(f'{self.name}: @ret: no return type')
+
     # T5 -------------------------------------------------------------------
     def rename(self, old, new):
         n = 0
         for i in range(len(self.s)):
             t = self.stok(i)
-            if t.kind == 'ident' and t.text == old and t.start > self.body_open:
+            if t.kind == 'ident' and t.text == old and t.start > self.body_open and self.stok(i - 1).text == '.' \
+                    and self.stok(i + 1).text in ('(', '::'):
                 self.edits.append((t.start, t.end, new, ('T5', old)))
                 n += 1
         if n == 0:
@@ -227,6 +250,25 @@ class FnText:
                                        ('T9', old)))
                     return
         raise Unsupported(f'{self.name}: @replace {n} `{old}`: occurrence not found')
+
+    def derefcmp(self, a, b, n=1):
+        """T9: the n-th comparison `a ==|!= b` (either order) between two reference-typed identifiers
+        becomes `*a OP *b` (vstd gives `<&A as PartialEq<&B>>::{eq,ne}` an empty specification; core
+        implements it by dereferencing).  The operator itself is left as it is in the source."""
+        seen = 0
+        for i in range(1, len(self.s) - 1):
+            t = self.stok(i)
+            if t.start < self.body_open or t.kind != 'punct' or t.text not in ('==', '!='):
+                continue
+            l, r = self.stok(i - 1), self.stok(i + 1)
+            if l.kind == 'ident' and r.kind == 'ident' and {l.text, r.text} == {a, b} \
+                    and self.stok(i - 2).text not in ('.', '::', '*') and self.stok(i + 2).text not in ('.', '::', '('):
+                seen += 1
+                if seen == n:
+                    self.edits.append((l.start, l.start, '*', ('T9', f'{a} {t.text} {b}')))
+                    self.edits.append((r.start, r.start, '*', ('T9', f'{a} {t.text} {b}')))
+                    return
+        raise Unsupported(f'{self.name}: @derefcmp {a} {b} {n}: comparison not found')
 
     # T4 -------------------------------------------------------------------
     def add_sig(self, text, origin):
@@ -383,7 +425,7 @@ class FnText:
             self.edits.append((self.stok(bs).start, self.stok(bs).start, '{ ', origin))
             self.edits.append((self.stok(be).end, self.stok(be).end, ' }', origin))
 
-    def returns(self):
+    def returns(self, kw='return'):
         lo, hi = self.body_sig_range()
         out = []
         cl = self.closures()
@@ -394,20 +436,20 @@ class FnText:
             closure_spans.append((bs, be))
         for i in range(lo, hi):
             t = self.stok(i)
-            if t.kind == 'ident' and t.text == 'return':
+            if t.kind == 'ident' and t.text == kw:
                 if any(a <= i <= b for a, b in closure_spans):
                     continue
                 out.append(i)
         return out
 
-    def wrap_return(self, n, text, origin):
+    def wrap_return(self, n, text, origin, kw='return'):
         if n == 'tail':
             pos = self.tail_start()
             self.edits.append((pos, pos, 'proof {\n' + text.rstrip() + '\n}\n', origin))
             return
-        rs = self.returns()
+        rs = self.returns(kw)
         if n > len(rs):
-            raise Unsupported(f'{self.name}: @return {n}: function has {len(rs)} returns')
+            raise Unsupported(f'{self.name}: @{kw} {n}: function has {len(rs)} `{kw}`s')
         i = rs[n - 1]
         # end of the return expression: first `;` `,` or closing bracket at depth 0
         depth = 0
@@ -426,7 +468,7 @@ class FnText:
             k += 1
         s0 = self.stok(i).start
         e0 = self.stok(k - 1).end
-        self.edits.append((s0, s0, '{ proof {\n' + text.rstrip() + '\n} ', origin))
+        self.edits.append((s0, s0, '{ ' + ('proof {\n' + text.rstrip() + '\n} ' if text.strip() else ''), origin))
         self.edits.append((e0, e0, '; }', origin))
 
     def tail_start(self):
@@ -619,6 +661,11 @@ def process_extract(block_text, tmpl_path, tmpl_line, report):
             if not m:
                 raise Unsupported(f'{tmpl_path}:{ln}: bad @replace')
             ft.replace(int(m.group(1)), m.group(2), m.group(3))
+        elif d == 'ret':
+            ft.name_ret(arg.strip())
+        elif d == 'derefcmp':
+            parts_ = arg.split()
+            ft.derefcmp(parts_[0], parts_[1], int(parts_[2]) if len(parts_) > 2 else 1)
         elif d == 'sig':
             ft.add_sig(payload, origin)
             info['clauses'] += count_clauses(payload)
@@ -649,6 +696,9 @@ def process_extract(block_text, tmpl_path, tmpl_line, report):
             ft.closure_let(int(m.group(1)), m.group(2), origin)
         elif d == 'return':
             ft.wrap_return('tail' if arg == 'tail' else int(arg), payload, origin)
+            info['clauses'] += count_clauses(payload)
+        elif d == 'break':
+            ft.wrap_return(int(arg), payload, origin, kw='break')
             info['clauses'] += count_clauses(payload)
         elif d in ('before', 'after'):
             ident, n = arg.split()
@@ -735,6 +785,7 @@ def generate(tmpl_path, out_path):
     raw = open(tmpl_path).read()
     # includes first (they may not contain extract blocks with line-mapped origins we care about)
     text = expand_includes(raw)
+    text = text.replace('"/repo/', '"' + REPO + '/')
     text = DBSTRUCT_RE.sub(lambda m: '// T6: generated from src/fixtures/mod.rs\n' + gen_dbstruct(m.group(1).split()), text)
     pieces = []
     pos = 0
